@@ -143,13 +143,54 @@ func (fw *FileWriter) openExistingFile() error {
 	fw.blockCount = fw.header.BlockCount
 	fw.entryCount = fw.header.EntryCount
 
-	// Seek to end for appending
-	if _, err := file.Seek(0, io.SeekEnd); err != nil {
+	// Position at the end of the last complete block. If the previous process died in the
+	// middle of a block write the file ends with a torn block; appending behind it would
+	// hide every later block from the reader, so the torn tail is cut off first.
+	end, err := fw.endOfLastCompleteBlock()
+	if err != nil {
+		file.Close()
+		return err
+	}
+	if err := file.Truncate(end); err != nil {
+		file.Close()
+		return err
+	}
+	if _, err := file.Seek(end, io.SeekStart); err != nil {
 		file.Close()
 		return err
 	}
 
 	return nil
+}
+
+// endOfLastCompleteBlock walks the block headers (no decompression) and returns the offset
+// just behind the last block whose header and data are completely present in the file.
+func (fw *FileWriter) endOfLastCompleteBlock() (int64, error) {
+	info, err := fw.file.Stat()
+	if err != nil {
+		return 0, err
+	}
+	size := info.Size()
+	pos := fw.header.DataStartOffset()
+	if size < pos {
+		return 0, errors.New("file is shorter than its header and name area")
+	}
+	headerBuf := make([]byte, BlockHeaderSize)
+	for pos+BlockHeaderSize <= size {
+		if _, err := fw.file.ReadAt(headerBuf, pos); err != nil {
+			return 0, err
+		}
+		var bh BlockHeader
+		if err := bh.Deserialize(headerBuf); err != nil {
+			return 0, err
+		}
+		next := pos + BlockHeaderSize + int64(bh.CompressedSize)
+		if next > size {
+			break
+		}
+		pos = next
+	}
+	return pos, nil
 }
 
 // WriteEntry adds an entry to the buffer and flushes if necessary
